@@ -183,6 +183,10 @@ fn run_codec(r: &mut Rng, n: u64, ranges: bool) {
     codec_case("x2", 1, 0, &[t(0,0,0,0,0,!0,false), t(0,0,0,0,0,!0,false), t(0,5,0,5,0,!0,ranges)]);
     codec_case("x3", 1, 0, &[t(0,5,0,0,!0,!0,false), t(0,5,1,0,!0,!0,false), t(0,9,1,0,0,!0,false)]);
     for pos in [0u32, 15, 16, 17, 31, 32, 33, 47, 48] { for line in [0u32, 1, 5] { let toks: Vec<Tok> = (0..50).map(|i| t(line, i, 0, i, 0, !0, ranges && i == pos)).collect(); codec_case(&format!("p{}_{}", pos, line), 1, 0, &toks); } }
+    // every field delta at, just below and just above a VLQ digit boundary (2^4, 2^9, 2^14, ... : one more base64 digit), with both signs:
+    // the generated column goes up by d, the original line and column go up by d and come back down by d
+    for k in 1..=6u32 { for off in [-1i64, 0, 1] { let d = ((1i64 << (5 * k - 1)) + off) as u32;
+        codec_case(&format!("v{}", d), 1, 0, &[t(0,0,0,0,0,!0,false), t(0,d,d,d,0,!0,false), t(0,d.wrapping_mul(2),0,0,0,!0,false), t(1,d,0,d,0,!0,false)]); } }
     for i in 0..n { let nsrc = r.below(4) as u32; let nn = r.below(4) as u32; let toks = gen_toks(r, nsrc, nn, if i % 10 == 0 { 120 } else { 12 }, ranges);
         // every fourth map has equal strings under different indices and many tokens on few positions
         if i % 4 == 3 { let nsrc = 2 + r.below(3) as u32; let nn = 2 + r.below(3) as u32; let mut toks = gen_toks(r, nsrc, nn, 14, ranges); for t in toks.iter_mut() { t.dl %= 2; t.dc %= 2; t.sl %= 2; t.sc %= 2; } codec_case(&format!("d{}", i), nsrc, nn, &toks); }
